@@ -1,4 +1,92 @@
-import ZtypV.Spec
+/-
+C05  Backing trees are persistent: old versions never change; copies are detached.
+
+Model H (`ZtypV/Model/Heap.lean`).  A backing node "obtained from a view" is an address of the
+heap; "any later operation on that view, its copies, its sub-views or any other view sharing
+structure" is an arbitrary client program `p` over the primitives of package `tree`
+(allocate leaf / allocate pair / read / MerkleRoot).  `NoPoke p` — the client never writes into
+an existing leaf — is not an assumption about the view layer made here: it is the regenerated
+write-site inventory of the Go sources (the only in-place writes are the memo write in
+`PairNode.MerkleRoot`, `InitZeroHashes`, and caller-owned-root writes).
+The process-wide zero nodes (`&ZeroHashes[d]`) are ordinary leaf cells of the initial heap
+(address 0 of `exHeap`), so every statement below covers them.
+-/
+import ZtypV.Proofs.Heap
 namespace ZtypV.Props.C05
-theorem placeholder : True := trivial
+open ZtypV ZtypV.H
+
+/-- Frame: a client that does not poke leaves keeps the heap well-formed, only adds cells, leaves
+    structure and content of every existing cell unchanged (only memo fields of existing pairs may
+    change — C06 says to which values) and therefore leaves the pure tree denoted by every existing
+    node unchanged. -/
+theorem C05_frame (h : HashFn) {p : Prog α} {hp hp' : Heap} {a : Option α} {tr : Trace}
+    (hw : WF hp) (hnp : NoPoke p) (hrun : run h p hp = (a, hp', tr)) :
+    WF hp' ∧ hp.size ≤ hp'.size
+      ∧ (∀ x, x < hp.size → (hp'[x]?).map Cell.erase = (hp[x]?).map Cell.erase)
+      ∧ ∀ x, x < hp.size → absNode hp' x = absNode hp x := by
+  have hf := run_frame h hnp hp hw
+  rw [hrun] at hf
+  exact ⟨hf.1, hf.2.1, hf.2.2, fun x hx => absNode_ext hw hf.2 hx⟩
+
+example : ∃ a hp' tr, run exHash exClient exHeap3 = (a, hp', tr) ∧ exHeap3.size < hp'.size
+    ∧ ∀ x, x < exHeap3.size → absNode hp' x = absNode exHeap3 x :=
+  ⟨_, _, _, rfl, by decide,
+    (C05_frame exHash (wfB_sound (by decide)) noPoke_exClient rfl).2.2.2⟩
+
+/-- The Merkle root of every existing node, as observed by a later `MerkleRoot` call, is unchanged:
+    it is the root of the node's tree in the heap before the client ran. -/
+theorem C05_root_unchanged (h : HashFn) {p : Prog α} {hp : Heap} (hw : WF hp) (hm : MemoValid h hp)
+    (hnp : NoPoke p) {x : Nat} (hx : x < hp.size) :
+    (run h (Prog.root1 x) (run h p hp).2.1).1 = some ((absNode hp x).root h)
+      ∧ (run h (Prog.root1 x) hp).1 = some ((absNode hp x).root h) := by
+  have hf := run_frame h hnp hp hw
+  have hm' := run_memoValid h hnp hp hw hm
+  have hx' : x < (run h p hp).2.1.size := Nat.lt_of_lt_of_le hx hf.2.1
+  have e : ∀ {hp0 : Heap}, WF hp0 → MemoValid h hp0 → x < hp0.size →
+      (run h (Prog.root1 x) hp0).1 = some ((absNode hp0 x).root h) := by
+    intro hp0 w m l
+    unfold Prog.root1
+    rw [run_root_ok h _ l, (rootH_correct h (x+1) hp0 x w m (by omega)).1]; rfl
+  refine ⟨?_, e hw hm hx⟩
+  rw [e hf.1 hm' hx', absNode_ext hw hf.2 hx]
+
+example : (run exHash (Prog.root1 0) (run exHash exClient exHeap3).2.1).1 = some z0 := by
+  have := (C05_root_unchanged exHash (p := exClient) (wfB_sound (by decide : wfB exHeap3 = true))
+    (memoValidB_sound (by decide)) noPoke_exClient (x := 0) (by decide)).1
+  rw [this]; decide
+
+/-- A copy is detached in both directions (tree level).  Two clients `p` and `q` start from the
+    same heap (the same backing) and build their new nodes in their own regions.  What `p` leaves
+    behind in the common part — the old cells, with whatever memos `p` filled — gives `q` exactly
+    the results it has when run alone, and vice versa. -/
+theorem C05_copy_detached (h : HashFn) {p : Prog α} {q : Prog β} {hp : Heap} (hw : WF hp)
+    (hm : MemoValid h hp) (hnp : NoPoke p) (hnq : NoPoke q) :
+    (run h q ((run h p hp).2.1.extract 0 hp.size)).1 = (run h q hp).1
+      ∧ (run h p ((run h q hp).2.1.extract 0 hp.size)).1 = (run h p hp).1 := by
+  have key : ∀ {γ δ : Type} {p : Prog γ} {q : Prog δ}, NoPoke p → NoPoke q →
+      (run h q ((run h p hp).2.1.extract 0 hp.size)).1 = (run h q hp).1 := by
+    intro γ δ p q hnp hnq
+    have hf := run_frame h hnp hp hw
+    have hm' := run_memoValid h hnp hp hw hm
+    have hs := sameStruct_prefix_of_ext hf.2
+    exact ((run_rootEdit h (RootEdit.refl hnq hp.size) hp _ rfl hw (WF_prefix hf.2.1 hf.1) hs hm
+      (memoValid_prefix hf.2.1 hf.1 hm')).1).symm
+  exact ⟨key hnp hnq, key hnq hnp⟩
+
+example : (run exHash exClient ((run exHash (Prog.root1 4) exHeap).2.1.extract 0 exHeap.size)).1
+    = (run exHash exClient exHeap).1 :=
+  (C05_copy_detached exHash (p := Prog.root1 4) (wfB_sound (by decide)) (memoValidB_sound (by decide))
+    (.root _ _ (fun v => .ret v)) noPoke_exClient).1
+
+/-- The `NoPoke` premise is necessary: a client that writes into an existing leaf (here the shared
+    zero leaf) changes the tree of existing nodes, i.e. the frame property fails without the
+    checked write-site inventory. -/
+theorem C05_poke_counterexample :
+    ¬ (∀ (p : Prog Unit) (hp : Heap), WF hp →
+        ∀ x, x < hp.size → absNode (run exHash p hp).2.1 x = absNode hp x) := by
+  intro hall
+  have := hall exPoker exHeap (wfB_sound (by decide)) 4 (by decide)
+  revert this
+  decide
+
 end ZtypV.Props.C05
